@@ -674,6 +674,15 @@ func (env *Env) callExpr(n *ast.CallExpr) SV {
 		}
 		body := x.evalBool(ch, n.Args[3])
 		rng := and(sx("<=", lo, q), sx("<", q, hi))
+		if fn.Name == "forall" && x.qRegister && len(env.bound) == 0 {
+			// a universally quantified hypothesis: remember how to instantiate it
+			penv, bodyExpr := env, n.Args[3]
+			x.qInst = append(x.qInst, func(idx string) string {
+				c2 := penv.child()
+				c2.names[id] = svInt(idx)
+				return implies(and(sx("<=", lo, idx), sx("<", idx, hi)), x.evalBool(c2, bodyExpr))
+			})
+		}
 		if fn.Name == "forall" {
 			return svBool(fmt.Sprintf("(forall ((%s Int)) %s)", q, implies(rng, body)))
 		}
